@@ -66,6 +66,11 @@ def configs(ctx):
             for p in (0.5, 0.9):
                 cfgs.append(T.finalize({"alg": alg, "kind": k, "cons": "none", "maximize": False, "variator": "default", "script": p,
                                         "evaluator": "map", "steps": 25, "timeout": 90}, rng))
+    for alg in ("ES", "PAES", "GA", "NSGAII"):     # mutation-only / BitFlip-heavy runs on Integer ranges whose size is a power of two
+        for rep in range(ctx.scale(2, 8)):
+            cfgs.append(T.finalize({"alg": alg, "kind": "intpow2", "cons": "none", "maximize": False,
+                                    "variator": "default" if alg in ("ES", "PAES") else "explicit:0", "script": rng.choice([None, 0.15]),
+                                    "evaluator": "map", "steps": 40, "size": 6}, rng))
     for k in T.KINDS:                              # restarts and injected populations on every type
         for rep in range(ctx.scale(1, 4)):
             cfgs.append(T.finalize({"alg": "EpsNSGAII", "kind": k, "cons": "cmp", "maximize": False, "variator": "default", "restart": True,
@@ -184,6 +189,24 @@ def run(ctx):
             ctx.violation(key, what, rp)
         ctx.count(ctx.scale(60, 600) * 2)
 
+    # Integer: EVERY bit string of the declared length decodes into [min, max] (the tie of c07_integer_decode_in_range),
+    # for the Integer types of the traced configurations and a pool of ranges (sizes 2^k, 2^k +- 1, negative, wide)
+    from platypus import Integer as _Integer
+    ranges = list(T.INTEGER_RANGES)
+    for kind in T.KINDS:
+        for t in T.make_types(kind):
+            if isinstance(t, _Integer) and (t.min_value, t.max_value) not in ranges:
+                ranges.append((t.min_value, t.max_value))
+    ncodes, int_fails = T.integer_decode_sweep(ranges, rng)
+    ctx.count(ncodes)
+    nbits_bad = [f for f in int_fails if f[0] == "integer-nbits-not-minimal"]
+    for key, what, rp in [f for f in int_fails if f[0] != "integer-nbits-not-minimal"][:6]:
+        ctx.violation("%s:Integer(%d,%d)" % (key, rp["min"], rp["max"]), what, rp)
+    ctx.obligation("correspondence:integer-nbits-bound(%d ranges, %d codes decoded)" % (len(ranges), ncodes), "correspondence", not nbits_bad,
+                   "; ".join(f[1] for f in nbits_bad[:4]))
+    for (a, b) in ranges:
+        ctx.mark("intrange|%d|%d" % (a, b))
+
     # PSO position update and CMA-ES sampler: real method vs model, plus bounds oracle
     pso_lits, pso_fails, pso_stats = T.pso_cases(rng, ctx.scale(600, 6000))
     cma_lits, cma_fails, cma_stats = T.cma_cases(rng, ctx.scale(300, 3000))
@@ -226,6 +249,7 @@ def run(ctx):
         "user_function_calls_checked": ncalls,
         "negative_controls": len(neg),
         "registry_cases": len(reg_lits),
+        "integer_ranges_swept": len(ranges), "integer_codes_decoded": ncodes,
         "pso_cases": len(pso_lits), "pso_stats": pso_stats,
         "cma_cases": len(cma_lits), "cma_stats": cma_stats,
         "input_distribution": {k: (dict(v) if isinstance(v, Counter) else v) for k, v in dist.items()},
@@ -266,6 +290,10 @@ def replay(ctx, data):
             if k == key or key == "replay":
                 ctx.violation(key, "replay: " + what, rp)
                 break
+    elif kind in ("integer-decode", "integer-nbits"):
+        bad = T.integer_decode_replay(rp)
+        if bad:
+            ctx.violation(key, "replay: Integer(%d, %d) %s" % (rp["min"], rp["max"], bad), rp)
     elif kind == "pso":
         bad = T.pso_replay(rp)
         if bad:
